@@ -18,6 +18,11 @@ pub fn opt_bits(i: usize) -> (bool, bool, bool, bool, bool) {
 }
 
 pub fn decoder_for(i: usize, key: &HMACKey) -> MessageDecoder {
+    decoder_for_alt(i, key, false)
+}
+
+/// `alt`: the builder is first given a context of complementary options, then the wanted one
+pub fn decoder_for_alt(i: usize, key: &HMACKey, alt: bool) -> MessageDecoder {
     let (ctx, validation, with_key, unknown_data, not_ignore) = opt_bits(i);
     if !ctx {
         return MessageDecoderBuilder::default().build();
@@ -34,6 +39,23 @@ pub fn decoder_for(i: usize, key: &HMACKey) -> MessageDecoder {
     }
     if not_ignore {
         b = b.not_ignore();
+    }
+    // the last with_context call is the one that counts
+    if alt {
+        let mut c = DecoderContextBuilder::default();
+        if !validation {
+            c = c.with_validation();
+        }
+        if !with_key {
+            c = c.with_key(key.clone());
+        }
+        if !unknown_data {
+            c = c.with_unknown_data();
+        }
+        if !not_ignore {
+            c = c.not_ignore();
+        }
+        return MessageDecoderBuilder::default().with_context(c.build()).with_context(b.build()).build();
     }
     MessageDecoderBuilder::default().with_context(b.build()).build()
 }
